@@ -241,8 +241,9 @@ class C18(Prop):
         for _ in range(150 if tier == 'quick' else 4000):
             tg = lambda: [bytes(rng.getrandbits(8) for _ in range(rng.choice([1, 5, 12, 255]))).hex() for _ in range(rng.choice([1, 1, 2, 3]))]
             out.append({'kind': 'enc', 'items': [{'k': 'route', 'tags': tg()}], 'helpers': False, 'history': {'first': tg(), 'how': rng.choice(['assign', 'extend', 'parse'])}})
+        pool = [x for x in out[len(table):] if not x.get('history')]
         for _ in range(n // 2):
-            c = rng.choice([x for x in out[len(table):] if not x.get('history')])
+            c = rng.choice(pool)
             try:
                 blob = self._encode(c['items'])
             except Exception:
